@@ -128,10 +128,9 @@ def run(rep: Report) -> None:
 
     # who reads next_states while stepping: every attribute load of `next_states` /
     # `has_next_states` met on any interpreted path of Network.step is recorded with the
-    # function it occurs in; only ElementWithVars.step (which stores the results) and the
-    # accessor itself may do so.
-    allowed = {"ElementWithVars.step": "stores the results of the step",
-               "ElementWithVars.has_next_states": "the accessor itself; its readers are recorded too"}
+    # function it occurs in and whether it happens in the bookkeeping part of
+    # ElementWithVars.step (the frame `step` of that class and what it calls, outside
+    # `step_dynamics`), which stores the results.
     n_reads = 0
     readers: dict = {}
     for ck in cks:
@@ -139,11 +138,13 @@ def run(rep: Report) -> None:
             for e in p.events:
                 if e[0] == "next-states-read":
                     n_reads += 1
-                    readers.setdefault(e[3], (e[1], e[2], ck.cfg.label()))
-    for fnq, (where, detail, lab) in sorted(readers.items()):
-        rep.check(fnq in allowed, "next-states-not-read", f"{detail.split(' of ')[0]} read in {fnq}", where,
-                  f"stepping reads the previous step's results ({detail}; first met in {lab}): stepping again "
-                  "from the same values would depend on history", key=f"nsread|{fnq}")
+                    fnq, book = e[3][0], e[3][1]
+                    readers.setdefault((fnq, book), (e[1], e[2], ck.cfg.label()))
+    for (fnq, book), (where, detail, lab) in sorted(readers.items()):
+        rep.check(book, "next-states-not-read", f"{detail.split(' of ')[0]} read in {fnq}", where,
+                  f"stepping reads the previous step's results outside the bookkeeping of ElementWithVars.step "
+                  f"({detail}; first met in {lab}): stepping again from the same values would depend on history",
+                  key=f"nsread|{fnq}")
     rep.analysed["reads of next_states met while stepping"] = n_reads
     rep.floor("reads of next_states met while stepping", n_reads, 1000)
 
